@@ -236,8 +236,6 @@ zix_copy_file(ZixAllocator* const  allocator,
   (void)posix_fadvise(dst_fd, 0, src_stat.st_size, POSIX_FADV_SEQUENTIAL);
 #endif
 
-  errno = 0;
-
   // Allocate a block for copying
   const size_t   align      = zix_system_page_size();
   const uint32_t block_size = zix_get_block_size(&src_stat, &dst_stat);
@@ -248,8 +246,9 @@ zix_copy_file(ZixAllocator* const  allocator,
   void* const  buffer      = block ? block : stack_buf;
   const size_t buffer_size = block ? block_size : sizeof(stack_buf);
 
-  // Copy file content one buffer at a time
-  st = copy_blocks(src_fd, dst_fd, buffer, buffer_size);
+  // Copy file content one buffer at a time (a failed allocation may have set errno)
+  errno = 0;
+  st    = copy_blocks(src_fd, dst_fd, buffer, buffer_size);
 
   zix_aligned_free(allocator, block);
   return finish_copy(dst_fd, src_fd, st);
